@@ -1,51 +1,21 @@
 #!/usr/bin/env python3
-"""Writes MANIFEST.json from the per-property table below (kept in one place so
-that the manifest is always valid)."""
+"""Writes MANIFEST.json from the per-property fragments manifest.d/Cxx.json."""
 import json
 import os
 
 HERE = os.path.dirname(os.path.dirname(os.path.abspath(__file__)))
 
-CLAIMED = {
-    "C01": {
-        "text": "Coq theorems about a hand model of the two-phase strip scanners (next_str / next_bytes, as repaired) against an independent byte-level "
-                "specification built on the by-range VT model (Spec/Strip.v); the state table is translated on every run and proved equal to the by-range spec by "
-                "complete enumeration. Tie: differential execution of strip_bytes / strip_str (pieces with offsets and concatenations) vs extracted model and spec.",
-        "design_ref": "DESIGN.md section 6, C01",
-        "note": "Trusted: Coq kernel, translator, extraction, OCaml driver, Rust harness; utf8parse transcribed and tied by correspondence.",
-        "technique": "Coq proof (model = spec for all byte strings, finite table facts by kernel enumeration) + translator + differential correspondence",
-    },
-    "C03": {
-        "text": "Coq theorems that the strip machines are folds and that each incremental iterator leaves exactly the fold state behind, hence chunked = one-shot for "
-                "every partition; tie by differential execution of StripBytes / StripStr over all 2^(n-1) partitions of short inputs and random partitions of long ones.",
-        "design_ref": "DESIGN.md section 6, C03",
-        "note": "Trusted: Coq kernel, translator, extraction, OCaml driver, Rust harness; text API chunks are valid UTF-8 by type.",
-        "technique": "Coq proof (fold law + iterator-leaves-fold-state, all chunkings) + translator + differential correspondence",
-    },
-    "C02": {
-        "text": "Machine-checked Coq theorems about a hand model of Parser::advance (bounds-checked arrays, saturating arithmetic, early returns) "
-                "against an independent by-range specification of Williams' parser with the four documented deviations; the 16x256 table is "
-                "translated from table.rs on every run and proved equal to the by-range spec by complete enumeration in the kernel. The model is tied "
-                "to the code by differential execution (extracted model and spec vs the real crate).",
-        "design_ref": "DESIGN.md section 6, C02",
-        "note": "Trusted: Coq kernel (vm_compute), translator for the table/discriminants/limits, extraction (ExtrOcamlBasic), OCaml driver, Rust harness; "
-                "utf8parse is transcribed and tied by correspondence only.",
-        "technique": "Coq proof (table = by-range spec by kernel enumeration; parser refinement) + translator + differential correspondence",
-    },
-    "C13": {
-        "text": "Machine-checked Coq theorems about a hand model of Effects (u16 bit set: insert/remove/contains/set/clear/is_plain, both index-loop iterators, Debug), "
-                "Style (setters, getters, convenience methods, |, -, |=, -= and == with Effects, From<Effects>, is_plain) and the AnsiColor/Ansi256Color conversions. "
-                "The set laws are proved for every set by bitwise reasoning (no enumeration of sets); iteration = the members in declaration order, sorted, duplicate-free, "
-                "union = the set; Debug = the names of exactly the members; the model equals an independent executable set-theoretic specification on characteristic vectors; "
-                "the 16-colour and 256-index facts by complete enumeration in the kernel. The effect bit constants, METADATA, the 16-arm match tables, the convenience-method "
-                "table and the shape of both iterator loops are translated from effect.rs/color.rs/style.rs on every run. The hand model is tied to the code by differential "
-                "execution: all 4096 sets, 4096x12 singletons, 10^5 seeded pairs (quick), all 4096x4096 pairs (thorough, digests), all 16 colours, all 256 indices, seeded styles.",
-        "design_ref": "DESIGN.md section 6, C13",
-        "note": "Trusted: Coq kernel (vm_compute), translator, extraction (ExtrOcamlBasic), OCaml driver, Rust harness (reads the raw u16 through the derived Hash; "
-                "names a set by its mask over the twelve public constants, proved to be the identity for the translated constants).",
-        "technique": "Coq proof (bitwise set laws for all sets, finite colour tables by kernel enumeration, model = set-theoretic spec) + translator + differential correspondence",
-    },
-}
+def load_claimed():
+    """one JSON fragment per claimed property in manifest.d/ (text, design_ref, note, technique)"""
+    d = os.path.join(HERE, "manifest.d")
+    out = {}
+    for fn in sorted(os.listdir(d)):
+        if fn.endswith(".json"):
+            out[fn[:-5]] = json.load(open(os.path.join(d, fn)))
+    return out
+
+
+CLAIMED = load_claimed()
 
 NOT_YET = {
 }
